@@ -697,3 +697,99 @@ Proof. exact prepend_total. Qed.
 Check as_path_prepend_total :
   forall ty asn buf, exists b, path_prepend_b ty asn buf = Ok b.
 Print Assumptions as_path_prepend_total.
+
+(* Add-Path sessions: every entry the neighbour holds is recorded in the ExportMap - after one
+   call if that was so before, hence along any history that starts with an empty map - so a
+   later change that names the path as replaced, or no longer lists it, reaches the entry. *)
+Theorem export_map_covers_view_addpath :
+  forall x pol emax raddr cid c m r,
+    emax <> 1 ->
+    process_change x pol emax raddr cid c (EAddPath m) = Ok r ->
+    exists m', snd r = EAddPath m'
+      /\ forall d pid v0,
+           (has_entry v0 = true -> In pid (ap_ids m d)) ->
+           has_entry (view_after (fst r) d pid v0) = true -> In pid (ap_ids m' d).
+Proof. exact C09_export_map_covers_view_addpath. Qed.
+Check export_map_covers_view_addpath :
+  forall x pol emax raddr cid c m r,
+    emax <> 1 ->
+    process_change x pol emax raddr cid c (EAddPath m) = Ok r ->
+    exists m', snd r = EAddPath m'
+      /\ forall d pid v0,
+           (has_entry v0 = true -> In pid (ap_ids m d)) ->
+           has_entry (view_after (fst r) d pid v0) = true -> In pid (ap_ids m' d).
+Print Assumptions export_map_covers_view_addpath.
+
+(* ... along histories. *)
+Theorem export_map_covers_view_addpath_history :
+  forall x pol emax raddr cid cs m r,
+    emax <> 1 ->
+    run_changes x pol emax raddr cid cs (EAddPath m) = Ok r ->
+    exists m', snd r = EAddPath m'
+      /\ forall d pid v0,
+           (has_entry v0 = true -> In pid (ap_ids m d)) ->
+           has_entry (view_after (fst r) d pid v0) = true -> In pid (ap_ids m' d).
+Proof. exact C09_export_map_covers_view_addpath_history. Qed.
+Check export_map_covers_view_addpath_history :
+  forall x pol emax raddr cid cs m r,
+    emax <> 1 ->
+    run_changes x pol emax raddr cid cs (EAddPath m) = Ok r ->
+    exists m', snd r = EAddPath m'
+      /\ forall d pid v0,
+           (has_entry v0 = true -> In pid (ap_ids m d)) ->
+           has_entry (view_after (fst r) d pid v0) = true -> In pid (ap_ids m' d).
+Print Assumptions export_map_covers_view_addpath_history.
+
+(* (9g) Add-Path neighbour, ANY destination: after restale_llgr's whole stream, what the
+   neighbour holds for an eligible path of the marked peer carries LLGR_STALE, or it holds
+   nothing (any_from_addr = true: an eligible path of the peer exists). *)
+Theorem llgr_stream_addpath :
+  forall x pol emax raddr cid fam d old addr paths m r p pid v0 v,
+    policy_keeps_decodable pol -> emax <> 1 ->
+    (forall q, In q paths -> decodable (p_attrs q)) ->
+    (forall q, In q paths -> src_raddr (p_src q) = addr -> src_llgr (p_src q) = true) ->
+    (forall q, In q paths -> p_lpid q = pid -> src_raddr (p_src q) = addr) ->
+    In p paths -> p_lpid p = pid ->
+    (has_entry v0 = true -> In pid (ap_ids m d)) ->
+    run_changes x pol emax raddr cid (restale_llgr_changes fam d old true addr paths) (EAddPath m) = Ok r ->
+    view_after (fst r) d pid v0 = Some v -> carries_llgr_stale v.
+Proof. exact C09_llgr_stream_addpath. Qed.
+Check llgr_stream_addpath :
+  forall x pol emax raddr cid fam d old addr paths m r p pid v0 v,
+    policy_keeps_decodable pol -> emax <> 1 ->
+    (forall q, In q paths -> decodable (p_attrs q)) ->
+    (forall q, In q paths -> src_raddr (p_src q) = addr -> src_llgr (p_src q) = true) ->
+    (forall q, In q paths -> p_lpid q = pid -> src_raddr (p_src q) = addr) ->
+    In p paths -> p_lpid p = pid ->
+    (has_entry v0 = true -> In pid (ap_ids m d)) ->
+    run_changes x pol emax raddr cid (restale_llgr_changes fam d old true addr paths) (EAddPath m) = Ok r ->
+    view_after (fst r) d pid v0 = Some v -> carries_llgr_stale v.
+Print Assumptions llgr_stream_addpath.
+
+(* (9h) NO_LLGR.  TableManager::mark_llgr_stale = restale_llgr then drop_no_llgr; a route that
+   carries NO_LLGR does not outlive the start of the LLGR period of its source: after both
+   change streams the neighbour holds nothing for it (best-only and Add-Path). *)
+Theorem no_llgr_route_withdrawn :
+  forall x pol emax raddr cid ps nh attrs ops1 ops2 e,
+    has_no_llgr attrs = true ->
+    llgr_scenario_full x pol emax raddr cid ps nh attrs = Ok (ops1, ops2, e) ->
+    view_after (ops1 ++ ops2) 1 (if emax =? 1 then 0 else 1) None = None.
+Proof. exact C09_no_llgr_route_withdrawn. Qed.
+Check no_llgr_route_withdrawn :
+  forall x pol emax raddr cid ps nh attrs ops1 ops2 e,
+    has_no_llgr attrs = true ->
+    llgr_scenario_full x pol emax raddr cid ps nh attrs = Ok (ops1, ops2, e) ->
+    view_after (ops1 ++ ops2) 1 (if emax =? 1 then 0 else 1) None = None.
+Print Assumptions no_llgr_route_withdrawn.
+
+(* ... and without NO_LLGR the full scenario is the one of llgr_stale_readvertised. *)
+Theorem llgr_scenario_full_without_no_llgr :
+  forall x pol emax raddr cid ps nh attrs,
+    has_no_llgr attrs = false ->
+    llgr_scenario_full x pol emax raddr cid ps nh attrs = llgr_scenario x pol emax raddr cid ps nh attrs.
+Proof. exact llgr_scenario_full_plain. Qed.
+Check llgr_scenario_full_without_no_llgr :
+  forall x pol emax raddr cid ps nh attrs,
+    has_no_llgr attrs = false ->
+    llgr_scenario_full x pol emax raddr cid ps nh attrs = llgr_scenario x pol emax raddr cid ps nh attrs.
+Print Assumptions llgr_scenario_full_without_no_llgr.
